@@ -150,9 +150,10 @@ theorem buffered_pairing (f : Nat → Option Nat) (n k : Nat) (xs : List Item) (
 
 /-! ## non-vacuity -/
 
-/-- three items, window 2, completion order 1,0,2: the output is reordered, pairs intact -/
-example : (runChoices (fOf "map") 2 (XSt.init [(10, 1), (11, 2), (12, 3)]) [1, 0, 2]).map (·.st.out)
-    = some [(11, 5), (10, 3), (12, 7)] := by decide
+/-- three items, window 2, completion order 1,0,2: the output is reordered, pairs intact
+    (item 1 yields a one-byte blob, item 0 an empty blob – both are retained) -/
+example : (runChoices (fOf "fmap") 2 (XSt.init [(10, 1), (11, 2), (12, 3)]) [1, 0, 2]).map (·.st.out)
+    = some [(11, 3), (10, 0), (12, 1017)] := by decide
 /-- item 2 is not in flight before one of the first two has finished (window 2) -/
 example : (runChoices (fOf "map") 2 (XSt.init [(10, 1), (11, 2), (12, 3)]) [2, 0, 1]).isNone = true := by decide
 example : chunks 2 [1, 2, 3, 4, 5] = [[1, 2], [3, 4], [5]] := by decide
